@@ -1,8 +1,8 @@
 (* C04/Props.v — the property theorems, nothing else.
-   Model: C04/Model.v.  Proofs: Glob.v, Sound.v, Assoc.v, Coherent.v. *)
+   Model: C04/Model.v.  Proofs: Glob.v, Sound.v, Assoc.v, Prune.v, Shrink.v, Coherent.v. *)
 From Coq Require Import List NArith ZArith Bool.
 Import ListNotations.
-Require Import Base.Wire Base.PyStr C04.Model C04.Glob C04.Sound C04.Coherent.
+Require Import Base.Wire Base.PyStr C04.Model C04.Glob C04.Sound C04.Prune C04.Shrink C04.Coherent.
 Require C03.Model.
 
 (* The regex the code builds from a hostmask pattern decides exactly the
@@ -37,42 +37,68 @@ Theorem C04_never_two :
 Proof. exact lookup_ambiguous_raises. Qed.
 Print Assumptions C04_never_two.
 
+(* Recognised only via its own hostmasks or login, for EVERY state, clock and
+   timeout, cached or not: an answer is an account that recognises the hostmask
+   now, by one of its own masks or by a login from exactly that hostmask that
+   has not timed out.  (Before the repair of F5 this held on cache misses only:
+   C04_sound.) *)
+Theorem C04_recognised_only :
+  forall t now s h id,
+    snd (getUserId t now s h) = Ok id ->
+    exists u, In (id, u) (s_users s) /\ recog t now u h = true.
+Proof. exact answer_recognised. Qed.
+Print Assumptions C04_recognised_only.
+
+(* ... and, for every state, the one account a cache-free recomputation finds
+   is answered, and a hostmask nobody recognises is a KeyError: a stale cache
+   entry never hides or invents an account. *)
+Theorem C04_recomputed_is_answered :
+  forall t now s h,
+    (forall id, recognised_by t now s h = [id] -> snd (getUserId t now s h) = Ok id) /\
+    (recognised_by t now s h = [] -> snd (getUserId t now s h) = Raise KeyError).
+Proof. intros t now s h. exact (conj (lookup_complete t now s h) (lookup_unknown_any t now s h)). Qed.
+Print Assumptions C04_recomputed_is_answered.
+
 (* Full statement of cache coherence:
-     forall history, the answer of a lookup = the cache-free recomputation.
-   The pinned code violates it (findings F5, F6, F22).  Proved: it holds for
-   every history from the empty database on the domain "no login timeout and
-   every lookup unambiguous when it happens" ... *)
+     forall timeout, history, clock: a lookup answers id  <->  a cache-free
+     recomputation finds exactly id.
+   With F5, F22 and the stale-cache half of F6 repaired it holds for every login
+   timeout, every clock (monotone or not) and every history of
+   newUser/setUser/delUser/identify/unidentify/lookups from the empty database,
+   on the domain hist_ok: whenever setUser ACCEPTS (id, u), a hostmask that u's
+   masks match and id's stored record did not recognise is recognised by no
+   other account (set_dom: setUser's own overlap test is literal, finding F6,
+   not repaired) ... *)
 Theorem C04_cache_coherent_on_domain :
-  forall ops now h id,
-    hist_ok init ops ->
-    (length (recognised_by 0 now (run_ops init ops) h) <= 1)%nat ->
-    snd (getUserId 0 now (run_ops init ops) h) = Ok id ->
-    recognised_by 0 now (run_ops init ops) h = [id].
+  forall t ops now h id,
+    hist_ok t init ops ->
+    (snd (getUserId t now (run_ops t init ops) h) = Ok id <->
+     recognised_by t now (run_ops t init ops) h = [id]).
 Proof. exact lookup_coherent_on_domain. Qed.
 Print Assumptions C04_cache_coherent_on_domain.
 
-(* ... the invariant behind it is preserved by every operation ... *)
+(* ... the invariant behind it is preserved by every operation, and under it an
+   answer is the only account recognising the hostmask ... *)
 Theorem C04_invariant_step :
-  forall now s o, Inv s -> ids_bounded s -> op_ok now s o ->
-  Inv (fst (step 0 now s o)) /\ ids_bounded (fst (step 0 now s o)).
+  forall t now s o, Inv s -> ids_bounded s -> op_ok t now s o ->
+  Inv (fst (step t now s o)) /\ ids_bounded (fst (step t now s o)).
 Proof. exact step_preserves. Qed.
 Print Assumptions C04_invariant_step.
 
-(* ... and it fails outside the domain: (a) a login that expired is still
-   answered from the cache, (b) overlapping glob masks of two accounts are
-   accepted, (c) a login from a hostmask another account owns leaves the stale
-   cached answer. *)
+Theorem C04_invariant_unique :
+  forall t now s h id, Inv s -> snd (getUserId t now s h) = Ok id -> recognised_by t now s h = [id].
+Proof. exact answer_unique. Qed.
+Print Assumptions C04_invariant_unique.
+
+(* ... and it fails outside the domain: overlapping glob masks of two accounts
+   [a*!*@* and *b!*@* ] are accepted by setUser, and ab!x@y, cached for account 1,
+   is answered although accounts 1 and 2 both recognise it. *)
 Theorem C04_cache_coherent_refuted :
-  (exists s h id, snd (getUserId 10 1030 s h) = Ok id /\ recognised_by 10 1030 s h = []) /\
-  (exists s h, recognised_by 0 1000 s h = [1%N; 2%N]) /\
-  (exists s h, snd (getUserId 0 1000 s h) = Ok 1%N /\ recognised_by 0 1000 s h = [1%N; 2%N]).
-Proof.
-  split; [|split].
-  - destruct expired_login_refuted as [A B]. eexists. eexists. eexists. split; [exact A|exact B].
-  - pose proof overlap_refuted as H. cbv zeta in H.
-    destruct (setUser 0 1000 _ 2 _) as [s2 r]. destruct H as [_ H]. eexists. eexists. exact H.
-  - destruct login_vs_mask_refuted as [A B]. eexists. eexists. split; [exact A|exact B].
-Qed.
+  exists t ops now h id,
+    ~ hist_ok t init ops /\
+    snd (getUserId t now (run_ops t init ops) h) = Ok id /\
+    recognised_by t now (run_ops t init ops) h <> [id].
+Proof. exact coherent_refuted. Qed.
 Print Assumptions C04_cache_coherent_refuted.
 
 (* A secure account accepts a login only from a hostmask one of its masks matches. *)
